@@ -306,6 +306,11 @@ def run_twin_property(run, *, prop, propfile, module, theorems, cases, known_pre
                           % (len(mism), name, sql[:200]),
                           {"correspondence": "Model.Render.render vs get_sql", "context": name, "impl_sql": sql, "meta": m,
                            "model": C.debug_case(i)}, found_input=False)
+        elif C.unexpected_unmodelled():
+            u = C.unexpected_unmodelled()
+            run.violation("the model no longer covers what the generator builds: %d object(s) the dumper refuses (%s) - fail closed"
+                          % (sum(u.values()), "; ".join("%s x%d" % kv for kv in list(u.items())[:4])),
+                          {"correspondence": "harness/dump.py (live object -> Model.Syntax term)", "refused": u}, found_input=False)
         elif errors:
             run.violation("case files could not be evaluated: %s" % errors[0], {"errors": errors[:3]}, found_input=False)
         elif not proofs_ok:
